@@ -116,3 +116,117 @@ UNITS = [Unit('copier', 'C04', C, extracts=X_ALL, replay=REPLAY,
                        'iterator_from_2d::x() is the raw x-iterator at the current position, valid up to the end of its row'])]
 META = dict(not_covered=['fill_pixels / std::fill overload, equal_pixels (equal_n_fn, memcmp lengths), for_each_pixel, generate_pixels, transform_pixels, copy_and_convert_pixels: not built',
                          'the per-pixel assignment itself (C05) and the 1-D traversability dispatch (is_1d_traversable is under contract in C03)'])
+
+# ------------------------------------------------------------------------------------------------ whole-view pixel algorithms
+R_PA = [
+    ('R1.concepts', r'(?:boost::gil::)?gil_function_requires<[^;]*>\(\);', '', False),
+    ('R14.assert', r'BOOST_ASSERT\(src\.dimensions\(\) == dst\.dimensions\(\)\);', 'PRECONDITION(src->w == dst->w && src->h == dst->h);', False),
+    ('R11.is1d', r'\b(view|first)\.is_1d_traversable\(\)', r'\1->is1d', False),
+    ('R11.range_for_each', r'return std::for_each\(view\.begin\(\)\.x\(\), view\.end\(\)\.x\(\), fun\);', 'RANGE_1D(view); return;', False),
+    ('R11.range_generate', r'std::generate\(view\.begin\(\)\.x\(\), view\.end\(\)\.x\(\), fun\);', 'RANGE_1D(view);', False),
+    ('R11.range_fill', r'detail::fill_aux\(\s*view\.begin\(\)\.x\(\), view\.end\(\)\.x\(\), value, is_planar<View>\(\)\);', 'RANGE_1D(view);', False),
+    ('R11.row_generate', r'std::generate\(view\.row_begin\(y\), view\.row_end\(y\), fun\);', 'ROW_VISIT(view, y, 0, view->w);', False),
+    ('R11.row_fill', r'detail::fill_aux\(\s*view\.row_begin\(y\), view\.row_end\(y\), value, is_planar<View>\(\)\);', 'ROW_VISIT(view, y, 0, view->w);', False),
+    ('R11.row_for', r'for \(auto begin = view\.row_begin\(y\), end = view\.row_end\(y\); begin != end; \+\+begin\)\s*fun\(\*begin\);',
+     'for (ptrdiff_t bx__ = 0; bx__ != view->w; ++bx__)\nINNER_LOOP_CONTRACT(view)\n{ PIX_VISIT(view, bx__, y); }', False),
+    ('R11.ret_fun', r'return fun;', 'return;', False),
+    ('R11.h', r'\b(view|src)\.height\(\)', r'\1->h', False), ('R11.w', r'\b(view|src)\.width\(\)', r'\1->w', False),
+    ('R11.src_it', r'typename View1::x_iterator srcIt=src\.row_begin\(y\);', '', False), ('R11.dst_it', r'typename View2::x_iterator dstIt=dst\.row_begin\(y\);', '', False),
+    ('R11.transform', r'dstIt\[x\]=fun\(srcIt\[x\]\);', '{ PIX_READ(src, x, y); PIX_VISIT(dst, x, y); }', False),
+    ('L.rows', r'for \(std::ptrdiff_t y\s*=\s*0; y\s*<\s*(view|src)->h; \+\+y\)', lambda m: m.group(0) + '\nROWS_LOOP_CONTRACT(%s)' % m.group(1), False),
+    ('L.cols', r'for \(std::ptrdiff_t x=0; x<src->w; \+\+x\)', lambda m: m.group(0) + '\nCOLS_LOOP_CONTRACT', False),
+    # std::fill overload for iterator_from_2d
+    ('R11.fill_1d', r'std::fill\(first\.x\(\), last\.x\(\), val\);', 'RANGE_FILL_1D(first, last);', False),
+    ('R11.diff', r'std::ptrdiff_t n=last-first;', 'ptrdiff_t n = last->idx - first->idx;', False),
+    ('R11.min', r'std::min<const std::ptrdiff_t>\(', 'MIN(', False),
+    ('R11.fw', r'first\.width\(\)', 'first->w', False), ('R11.fx', r'first\.x_pos\(\)', 'first->x', False),
+    ('R11.fill_n', r'std::fill_n\(first\.x\(\), numToDo, val\);', 'CHUNK_FILL(first, numToDo);', False),
+    ('R11.adv', r'first\+=numToDo;', 'IT_ADVANCE(first, numToDo);', False),
+    ('L.fill', r'while \(n>0\)', 'while (n>0)\nFILL_LOOP_CONTRACT', False),
+]
+X_PA = [
+    X('for_each_pixel', AL, r'F for_each_pixel\(View const& view, F fun\)\s*\{', count=1, rules=R_PA),
+    X('generate_pixels', AL, r'void generate_pixels\(View const& view, F fun\)\s*\{', count=1, rules=R_PA),
+    X('fill_pixels', AL, r'void fill_pixels\(View const& view, Value const& value\)\s*\{', count=1, rules=R_PA),
+    X('transform_pixels', AL, r'F transform_pixels\(const View1& src,const View2& dst, F fun\) \{', count=1, rules=R_PA),
+    X('std_fill', AL, r'void fill\(boost::gil::iterator_from_2d<IL> first, boost::gil::iterator_from_2d<IL> last, const V& val\) \{', count=1, rules=R_PA),
+]
+PA_C = r'''
+typedef struct { ptrdiff_t w, h; _Bool is1d; } view_t; typedef int F; typedef int Value; typedef int V;
+typedef struct { ptrdiff_t x, w, idx; _Bool is1d; } it_t;
+#define PRECONDITION(c) __CPROVER_assert(c, "BOOST_ASSERT precondition of the library")
+#define HMAX ((ptrdiff_t)1 << 30)
+/* ghost target pixel (g_x, g_y) of the (destination) view: how often is it visited (assigned / generated / passed to fun) */
+ptrdiff_t g_x, g_y, g_w, g_h; int g_hits; ptrdiff_t g_first_idx, g_n0, g_target; ptrdiff_t g_fw;
+static void RANGE_1D(const view_t* v) {                     /* walk from begin().x() to end().x(): an x-iterator crosses row ends only in a 1-D traversable view */
+  __CPROVER_assert(v->is1d, "x-iterator range [begin().x(), end().x()) is used only for a 1-D traversable view (no row padding, no step)");
+  g_hits = g_hits + 1; }
+static void ROW_VISIT(const view_t* v, ptrdiff_t y, ptrdiff_t x0, ptrdiff_t len) {
+  __CPROVER_assert(0 <= y && y < v->h && 0 <= x0 && len >= 0 && x0 + len <= v->w, "ACCESS: the row range lies inside row y of the view");
+  if (y == g_y && x0 <= g_x && g_x < x0 + len) g_hits = g_hits + 1; }
+static void PIX_VISIT(const view_t* v, ptrdiff_t x, ptrdiff_t y) {
+  __CPROVER_assert(0 <= y && y < v->h && 0 <= x && x < v->w, "ACCESS: the pixel lies inside the view");
+  if (y == g_y && x == g_x) g_hits = g_hits + 1; }
+static void PIX_READ(const view_t* v, ptrdiff_t x, ptrdiff_t y) { __CPROVER_assert(0 <= y && y < v->h && 0 <= x && x < v->w, "ACCESS: the source pixel lies inside the source view"); }
+#define ROWS_LOOP_CONTRACT(v) __CPROVER_assigns(y, g_hits) __CPROVER_loop_invariant(0 <= y && y <= (v)->h && g_hits == (y > g_y ? 1 : 0)) __CPROVER_decreases((v)->h - y)
+#define INNER_LOOP_CONTRACT(v) __CPROVER_assigns(bx__, g_hits) __CPROVER_loop_invariant(0 <= bx__ && bx__ <= (v)->w && g_hits == ((y > g_y || (y == g_y && bx__ > g_x)) ? 1 : 0)) __CPROVER_decreases((v)->w - bx__)
+#define COLS_LOOP_CONTRACT __CPROVER_assigns(x, g_hits) __CPROVER_loop_invariant(0 <= x && x <= src->w && g_hits == ((y > g_y || (y == g_y && x > g_x)) ? 1 : 0)) __CPROVER_decreases(src->w - x)
+#define VIEW_PRE(v) (__CPROVER_is_fresh(v, sizeof(view_t)) && 0 <= (v)->w && (v)->w <= HMAX && 0 <= (v)->h && (v)->h <= HMAX && g_hits == 0 && 0 <= g_x && g_x < (v)->w && 0 <= g_y && g_y < (v)->h)
+#define ONCE (g_hits == 1)        /* every pixel of the view (ghost g_x, g_y) is visited exactly once */
+void for_each_pixel(const view_t* view, F fun) __CPROVER_requires(VIEW_PRE(view)) __CPROVER_assigns(g_hits) __CPROVER_ensures(ONCE) @@for_each_pixel@@
+void generate_pixels(const view_t* view, F fun) __CPROVER_requires(VIEW_PRE(view)) __CPROVER_assigns(g_hits) __CPROVER_ensures(ONCE) @@generate_pixels@@
+void fill_pixels(const view_t* view, Value value) __CPROVER_requires(VIEW_PRE(view)) __CPROVER_assigns(g_hits) __CPROVER_ensures(ONCE) @@fill_pixels@@
+void transform_pixels(const view_t* src, const view_t* dst, F fun)
+__CPROVER_requires(VIEW_PRE(dst) && __CPROVER_is_fresh(src, sizeof(view_t)) && src->w == dst->w && src->h == dst->h) __CPROVER_assigns(g_hits) __CPROVER_ensures(ONCE)
+@@transform_pixels@@
+/* ---- std::fill(iterator_from_2d first, last, val) ---- */
+static void IT_ADVANCE(it_t* it, ptrdiff_t d) { it->idx = it->idx + d;
+  if (it->x + d < it->w) it->x = it->x + d; else if (it->x + d == it->w) it->x = 0; else { ptrdiff_t nx; __CPROVER_assume(0 <= nx && nx < it->w); it->x = nx; } }
+static void RANGE_FILL_1D(const it_t* first, const it_t* last) { __CPROVER_assert(first->is1d, "x-iterator range across rows only for a 1-D traversable view");
+  if (g_target < last->idx - first->idx) g_hits = g_hits + 1; }
+static void CHUNK_FILL(const it_t* first, ptrdiff_t k) {
+  __CPROVER_assert(k >= 0 && first->x + k <= first->w, "fill_n: the chunk lies inside one row of the view (row padding is never written)");
+  __CPROVER_assert(first->idx - g_first_idx + k <= g_n0, "fill_n: writes only pixels of [first, last)");
+  if (first->idx - g_first_idx <= g_target && g_target < first->idx - g_first_idx + k) g_hits = g_hits + 1; }
+#define FILL_LOOP_CONTRACT __CPROVER_assigns(n, first->x, first->idx, g_hits) \
+  __CPROVER_loop_invariant(-2 * HMAX <= first->idx && first->idx <= 2 * HMAX && -HMAX <= g_first_idx && g_first_idx <= HMAX) \
+  __CPROVER_loop_invariant(0 <= n && n <= g_n0 && first->idx - g_first_idx == g_n0 - n && first->w == g_fw && 0 <= first->x && first->x < first->w) \
+  __CPROVER_loop_invariant(g_hits == (g_target < g_n0 - n ? 1 : 0)) __CPROVER_decreases(n)
+void std_fill(it_t* first, const it_t* last, V val)
+__CPROVER_requires(__CPROVER_is_fresh(first, sizeof(it_t)) && __CPROVER_is_fresh(last, sizeof(it_t)) && first->w == last->w && first->is1d == last->is1d && 0 < first->w && first->w <= HMAX && 0 <= first->x && first->x < first->w)
+__CPROVER_requires(-HMAX <= first->idx && first->idx <= last->idx && last->idx <= HMAX && g_first_idx == first->idx && g_n0 == last->idx - first->idx && g_fw == first->w && g_hits == 0 && 0 <= g_target && g_target < g_n0)
+__CPROVER_assigns(first->x, first->idx, g_hits)
+__CPROVER_ensures(g_hits == 1)      /* every pixel of [first, last) is filled exactly once; nothing outside it, no row padding */
+@@std_fill@@
+#ifndef VERIF_NATIVE
+#define HV(name) void h_##name(void){ view_t* v; int f; g_hits = 0; name(v, f); __CPROVER_assert(0, "VACUITY"); }
+HV(for_each_pixel) HV(generate_pixels) HV(fill_pixels)
+void h_transform_pixels(void){ view_t* s; view_t* d; int f; g_hits = 0; transform_pixels(s, d, f); __CPROVER_assert(0, "VACUITY"); }
+void h_std_fill(void){ it_t* a; it_t* b; int v; g_hits = 0; std_fill(a, b, v); __CPROVER_assert(0, "VACUITY"); }
+#endif
+'''
+REPLAY_PA = r'''
+#include <boost/gil.hpp>
+#include <vector>
+#include "vreplay.hpp"
+using namespace boost::gil;
+int main(int argc, char** argv){ vr::parse(argc, argv); long bad = 0;
+  for (int W = 1; W <= 5; W++) for (int H = 1; H <= 4; H++) for (int pad = 0; pad <= 2; pad++) {
+    std::vector<unsigned char> b((3 * W + pad) * H, 0xEE), ref; rgb8_view_t v = interleaved_view(W, H, (rgb8_pixel_t*)b.data(), 3 * W + pad);
+    ref = b; for (int y = 0; y < H; y++) for (int x = 0; x < 3 * W; x++) ref[(3 * W + pad) * y + x] = 9;
+    fill_pixels(v, rgb8_pixel_t(9, 9, 9)); if (b != ref) bad++;
+    std::fill(b.begin(), b.end(), 0xEE); std::fill(v.begin(), v.end(), rgb8_pixel_t(9, 9, 9)); if (b != ref) bad++;
+    long cnt = 0; for_each_pixel(v, [&](rgb8_pixel_t& p){ cnt++; p = rgb8_pixel_t(1, 2, 3); }); if (cnt != (long)W * H) bad++;
+    cnt = 0; generate_pixels(v, [&]{ cnt++; return rgb8_pixel_t(4, 5, 6); }); if (cnt != (long)W * H) bad++;
+    for (int y = 0; y < H; y++) for (int x = 0; x < W; x++) if (v(x, y) != rgb8_pixel_t(4, 5, 6)) bad++;
+    for (int y = 0; y < H; y++) for (int x = 3 * W; x < 3 * W + pad; x++) if (b[(3 * W + pad) * y + x] != 0xEE) bad++; }
+  if (bad) REPRODUCED("%ld deviations from the per-pixel loop (a pixel not visited exactly once, or row padding written)", bad);
+  NOT_REPRODUCED("fill / for_each / generate visit every pixel exactly once and leave the padding alone"); }
+'''
+UNITS.append(Unit('pixelalgs', 'C04', PA_C, extracts=X_PA, replay=REPLAY_PA,
+                  checks=[Check(n, 'h_' + n, enforce=n, loops=True, object_bits=10, timeout=600) for n in ('for_each_pixel', 'generate_pixels', 'fill_pixels', 'transform_pixels', 'std_fill')],
+                  preconditions=['view dimensions <= 2^30'],
+                  assumed=['std::for_each / std::generate / std::fill / fill_aux over an x-iterator range [a, b) visit exactly the pixels of that range, in order (libstdc++)',
+                           'view.row_begin(y) / row_end(y) delimit row y; iterator_from_2d += k follows the C03 advance contract']))
+META['not_covered'] = ['equal_pixels / std::equal overloads (equal_n_fn, memcmp lengths), transform_pixels with two sources, transform_pixel_positions, copy_and_convert_pixels, uninitialized_* / destruct_pixels: not built',
+                       'the per-pixel assignment itself (C05) and the 1-D traversability predicate (under contract in C03)']
